@@ -146,6 +146,26 @@ pub trait DiagramRules<E: Edge, N: InnerNode<E>, T> {
     fn cofactor(tag: E::Tag, node: &N, n: usize) -> Borrowed<'_, E> {
         Self::cofactors(tag, node).nth(n).expect("out of range")
     }
+
+    /// Get the `n`-th cofactor of the function represented by `edge` with
+    /// respect to a variable that `edge` "skips", i.e., a variable at a level
+    /// above the node referenced by `edge` (or any variable if `edge` points to
+    /// a terminal)
+    ///
+    /// In most kinds of decision diagrams, a skipped variable is a don't care,
+    /// so every cofactor is the function itself. This is what the default
+    /// implementation returns. Diagram kinds with a different elimination rule
+    /// (e.g., zero-suppressed decision diagrams) need to override this method.
+    /// It is used when levels are swapped during reordering.
+    #[inline]
+    fn cofactor_skipped<M: Manager<Edge = E, InnerNode = N, Terminal = T>>(
+        manager: &M,
+        edge: &E,
+        n: usize,
+    ) -> E {
+        let _ = n;
+        manager.clone_edge(edge)
+    }
 }
 
 /// Result of the attempt to create a new node
